@@ -91,6 +91,20 @@ CHECKS = {
         "astropy ephemerides/transformations and bundled IERS data trusted; N=0 not generated.",
         "DESIGN.md §4 C13",
     ),
+    "C15": (
+        "exploration",
+        "Hypothesis property-based testing: recursive generation of every configuration field (full Unicode strings, extreme floats, all variants) through the TOML round trip and the in-process command line; hand-written unit table AND astropy's conversion as a double oracle; three-way month reference (must-accept / must-reject / don't-care)",
+        "Field-by-field equality after create_toml/config_from_toml (exact, 4 ulp through the degree text form), unit conversion for strings and Quantities, rejection of incompatible units and inverted bands whichever edges are supplied, month parsing. Evidence, not proof.",
+        "pydantic, tomllib, tomli_w, click trusted; Optional sections never None.",
+        "DESIGN.md §4 C15",
+    ),
+    "C16": (
+        "exploration",
+        "Hypothesis property-based testing: generated configurations (ASCII strings incl. CONTINUE-length values, finite numbers, histories of several configurations per process) and real compute() tables through Table.write/Table.read; byte-level column comparison, complete-and-nothing-else configuration header, reconstruction checked on exactly the fields config_from_fits sets (pydantic model_fields_set)",
+        "Header completeness/values, loss-free columns (times via jd1/jd2), config_from_fits agreement for mono and power-law spectra. Evidence, not proof.",
+        "astropy.io.fits / astropy.table trusted; documented card-capacity and long-string format limits excluded from the domain.",
+        "DESIGN.md §4 C16",
+    ),
     "C18": (
         "exploration",
         "Hypothesis property-based testing: byte-level write/read round trips in HDF5 and FITS over generated grids, slice and row-interpolation checks against own scalar references; exhaustive enumeration of every node of the shipped tables against the samplers' preconditions",
